@@ -43,6 +43,8 @@ func amtOutOutcome(w *World) string {
 	switch {
 	case strings.Contains(t, "premium amt too high"):
 		return "premiumTooHigh"
+	case strings.Contains(t, "premium amt too low"):
+		return "premiumTooLow"
 	case strings.Contains(t, "not enough spendable msat"):
 		return "notEnoughSpendable"
 	case strings.Contains(t, "Fee is too damn high"):
@@ -74,6 +76,9 @@ func amtInOutcome(w *World) string {
 	}
 	if strings.Contains(lastCancelText(w), "premium amt too high") {
 		return "premiumTooHigh"
+	}
+	if strings.Contains(lastCancelText(w), "premium amt too low") {
+		return "premiumTooLow"
 	}
 	return "other:" + hexs(lastCancelText(w))
 }
